@@ -1,6 +1,7 @@
 package concur
 
 import (
+	"bytes"
 	"fmt"
 	"math/rand"
 	"sort"
@@ -8,6 +9,7 @@ import (
 
 	"github.com/protobom/protobom/pkg/formats"
 	"github.com/protobom/protobom/pkg/native"
+	"github.com/protobom/protobom/pkg/reader"
 	"github.com/protobom/protobom/pkg/sbom"
 	verifsim "github.com/protobom/protobom/pkg/verifsim"
 	"github.com/protobom/protobom/pkg/writer"
@@ -324,6 +326,25 @@ func c07BuildPool(verifSeed int64) []*sbom.Document {
 		d.NodeList.Edges = append(d.NodeList.Edges, &sbom.Edge{})
 		d.NodeList.Nodes = append(d.NodeList.Nodes, &sbom.Node{})
 	})
+	// documents that went through protobom once already (written, parsed again), once and twice
+	for i, f := range []string{c07Formats[0], c07Formats[len(c07Formats)-1], c07Formats[0], c07Formats[1]} {
+		d := base(fmt.Sprintf("rt%d", i))
+		for k := 0; k <= i/2; k++ {
+			if b, err := gen.RenderSafe(f, d, 2); err == nil {
+				// parsed twice: only a result that does not depend on the process (random identifiers) may enter the pool
+				back, perr := reader.New().ParseStream(bytes.NewReader(b))
+				again, perr2 := reader.New().ParseStream(bytes.NewReader(b))
+				if perr == nil && perr2 == nil && back != nil && again != nil && back.Metadata != nil && again.Metadata != nil {
+					back.Metadata.Id = fmt.Sprintf("urn:uuid:33333333-0000-4000-8000-%012d", i)
+					again.Metadata.Id = back.Metadata.Id
+					if proto.Equal(back, again) {
+						d = back
+					}
+				}
+			}
+		}
+		pool = append(pool, d)
+	}
 	// large documents (beyond any plausible "small input" threshold of a driver), the first with every
 	// identifier used by two nodes that carry different data, far apart in the list
 	c07BigStart = len(pool)
